@@ -525,8 +525,18 @@ func CheckC10(p *Pkg, e *Env, r *res.Result) {
 		docs := docResponses(p, op)
 		infos, problems := linkImplementers(in, op, docs)
 		if len(problems) > 0 {
-			r.Label("skipped:unlinked-implementers") // C02's business
-			continue
+			// the static link is C02's business; the round trip is still demanded of every
+			// response type the handler can return
+			r.Label("unlinked-implementers")
+			linked := map[reflect.Type]bool{}
+			for _, info := range infos {
+				linked[info.T] = true
+			}
+			for _, t := range op.Implementers() {
+				if !linked[t] {
+					infos = append(infos, implInfo{T: t, Doc: &DocResponse{Status: "unlinked", Headers: map[string]*specgen.Header{}}})
+				}
+			}
 		}
 		opDocs[op], opInfos[op] = docs, infos
 		for _, info := range infos {
